@@ -49,6 +49,15 @@ func c21Events() []c21Ev {
 			}
 		}
 	}
+	// a handle-less allocation (HandleID nil; client "n") and releases of the address it was granted:
+	// naming no handle, or naming handle a (which can never be the handle-less holder's)
+	evs = append(evs, c21Ev{Kind: "assign", H: "n"})
+	for _, sq := range []string{"none", "recorded", "bogus"} {
+		evs = append(evs, c21Ev{Kind: "release", H: "n", Seq: sq, Handle: "none"})
+	}
+	for _, sq := range []string{"none", "recorded"} {
+		evs = append(evs, c21Ev{Kind: "release", H: "n", Seq: sq, Handle: "other"})
+	}
 	evs = append(evs, c21Ev{Kind: "rbh", H: "a"}, c21Ev{Kind: "rbh", H: "b"}, c21Ev{Kind: "advance", H: "300"}, c21Ev{Kind: "advance", H: "700"})
 	return evs
 }
@@ -125,7 +134,7 @@ func other(h string) string {
 	if h == "a" {
 		return "b"
 	}
-	return "a"
+	return "a" // for b, and for the handle-less client n
 }
 
 // proj: allocation-relevant projection of the store (no revisions / sequence numbers of the block
@@ -184,7 +193,12 @@ func c21Apply(s *c21State, e c21Ev) {
 	case "assign":
 		now := w.clock.Peek()
 		h := e.H
-		v4, _, err := w.ic.AutoAssign(w.ctx, ipam.AutoAssignArgs{Num4: 1, Hostname: "n1", HandleID: &h, IntendedUse: v3.IPPoolAllowedUseWorkload})
+		args := ipam.AutoAssignArgs{Num4: 1, Hostname: "n1", HandleID: &h, IntendedUse: v3.IPPoolAllowedUseWorkload}
+		if e.H == "n" {
+			h = "" // client "n" allocates WITHOUT a handle
+			args.HandleID = nil
+		}
+		v4, _, err := w.ic.AutoAssign(w.ctx, args)
 		if v4 == nil || len(v4.IPs) == 0 {
 			s.last = "assign:none:" + errClass(err)
 			break
@@ -230,7 +244,7 @@ func c21Apply(s *c21State, e c21Ev) {
 		}
 		seq := w.allocs()[ip].Seq
 		*m = c21Addr{Alloc: true, Handle: h, Seq: seq}
-		s.lastIP[h], s.lastSeq[h] = ip, seq
+		s.lastIP[e.H], s.lastSeq[e.H] = ip, seq
 	case "release":
 		ip, known := s.lastIP[e.H]
 		if !known {
@@ -250,7 +264,9 @@ func c21Apply(s *c21State, e c21Ev) {
 		namedHandle := ""
 		switch e.Handle {
 		case "own":
-			namedHandle = e.H
+			if e.H != "n" {
+				namedHandle = e.H
+			}
 		case "other":
 			namedHandle = other(e.H)
 		}
@@ -383,12 +399,16 @@ func c21Key(s *c21State) string {
 	for _, ip := range qips {
 		fmt.Fprintf(&b, " q[%s]=%d", ip, rank[s.queued[ip]])
 	}
-	for _, h := range []string{"a", "b"} {
+	for _, h := range []string{"a", "b", "n"} {
 		ip := s.lastIP[h]
 		cur := false
 		if ip != "" {
 			m := s.addrs[ip]
-			cur = m.Alloc && m.Seq == s.lastSeq[h] && m.Handle == h
+			hh := h
+			if h == "n" {
+				hh = ""
+			}
+			cur = m.Alloc && m.Seq == s.lastSeq[h] && m.Handle == hh
 		}
 		fmt.Fprintf(&b, " last[%s]=%s/%v", h, ip, cur)
 	}
@@ -397,7 +417,7 @@ func c21Key(s *c21State) string {
 
 func TestVerif_C21(t *testing.T) {
 	vk.Run(t, "C21", func(c *vk.Ctx) {
-		c.Rule("histories over 24 events: assign(handle a|b), release of the address last granted to a|b x sequence number {none, the one the client recorded, a wrong one} x handle {none, own, the other}, release-by-handle a|b, advance 300 s, advance 700 s; one block of 4 addresses (/30) and one of 2 addresses (/31); cooldown 600 s and cooldown 0; tree mode (every history) to a small depth and graph mode (de-duplicated on store projection + model + clients' memory + cooldown phase) deeper; non-trivial = state with >=1 released address")
+		c.Rule("histories over 30 events: assign(handle a|b, or WITHOUT a handle = client n), release of the address last granted to a|b x sequence number {none, the one the client recorded, a wrong one} x handle {none, own, the other}, release-by-handle a|b, advance 300 s, advance 700 s; one block of 4 addresses (/30) and one of 2 addresses (/31); cooldown 600 s and cooldown 0; tree mode (every history) to a small depth and graph mode (de-duplicated on store projection + model + clients' memory + cooldown phase) deeper; non-trivial = state with >=1 released address")
 		c.Assume("reference model written from the statement; stored time stamps are second-granular, so 'cooldown passed' and 'free for longer' are judged with one second of slack; sequential use of the client")
 		spec := func(cooldown, naddr int, graph bool, depth int) *hbfs.Spec[*c21State, c21Ev] {
 			sp := &hbfs.Spec[*c21State, c21Ev]{
